@@ -87,9 +87,10 @@ TRUSTED_BASE = ['modelled (not verified) code: pybtex/bibtex/utils.py lines 96-6
                 'regular expressions BIBTEX_SPACE_RE, BRACE_RE, purify_special_char_re and the separators are hand-written matchers, compared with the live re objects through the functions that use them on the exhaustive stream']
 ASSUMPTIONS = ['letter/digit classes and case mapping are modelled on ASCII; non-ASCII letters are outside the claimed domain (DESIGN.md 2.2)']
 PARTIAL = [
-    'change_case_length / change_case_idem are proved for every string that does not end inside a never-closed special character (for those the scanner emits a closing brace that is not in the input: change_case_unbalanced_example, change_case_upto_case_all)',
-    'bibtex_abbreviate, _find_closing_brace and the BST builtins are tied by the correspondence only (the property text states no law about them); bibtex_width / bibtex_first_letter: additivity / shape theorems only',
+    'change_case_idem is proved for every string that does not end inside a never-closed special character and refuted otherwise (change_case_idem_refuted); change_case_length_all is exact for every string',
+    'split_name_list / split_tex_string: that EVERY top-level separator occurrence is a split point (maximality of re.split) is not proved; it is covered by the correspondence only (the property text does not state it)',
     'the separator regexes are hand-written matchers; agreement with the live re objects is tested (pattern sweep + through split_tex_string), not proved',
+    'letter classes are ASCII in the model (DESIGN.md 2.2)',
 ]
 
 def describe(fn, a):
